@@ -47,7 +47,7 @@ func genC12(t *rapid.T) c12Case {
 	n := rapid.IntRange(2, 8).Draw(t, "nops")
 	for i := 0; i < n; i++ {
 		c.Ops = append(c.Ops, c12Op{
-			Kind:  rapid.SampledFrom([]int{0, 1, 2, 2, 2, 3, 3, 4, 4, 5, 6, 7, 7, 8, 9, 9, 10, 11, 11, 12, 13, 13, 14, 15, 15, 16, 16, 17, 18, 18, 19, 19, 20}).Draw(t, "kind"),
+			Kind:  rapid.SampledFrom([]int{0, 1, 2, 2, 2, 3, 3, 4, 4, 5, 6, 7, 7, 8, 9, 9, 10, 11, 11, 12, 13, 13, 14, 15, 15, 16, 16, 17, 18, 18, 19, 19, 20, 21, 21, 22}).Draw(t, "kind"),
 			Topic: rapid.IntRange(0, 1).Draw(t, "topic"),
 			Who:   rapid.IntRange(0, 3).Draw(t, "who"),
 			At:    rapid.IntRange(0, 40).Draw(t, "at"),
@@ -67,6 +67,7 @@ type c12Info struct {
 	HeldCallbacks     int
 	LateDuringSession int
 	StalledHandlers   int
+	LateReturns       int
 	DupDuringSetup    int
 	L40Between        int
 	LiveForeign       int // copies of live session frames under a non-participant's source, delivered while the session runs
@@ -105,6 +106,7 @@ func runC12(c c12Case) *vh.Outcome {
 		var onMsgGateNode uint16 // node whose next signer instance parks in its first OnMsg (a slow handler)
 		var onMsgGate chan struct{}
 		tolerateBlocked := false
+		var returnDelay time.Duration        // protocol instances created now take this long to return once their context has ended
 		var holdBack func(f *sim.Frame) bool // deliveries that the driver must put aside for now (returns true = put aside)
 		// hookNode/hookPoint/hookFire: the next protocol instance of hookNode calls hookFire when it reaches hookPoint
 		// ("factory" | "init" | "setshare" | "run") - a cancellation in the middle of the orchestrator's set-up
@@ -128,6 +130,7 @@ func runC12(c c12Case) *vh.Outcome {
 		mk := func(node uint16, kind string) *backends.Rec {
 			instance[node]++
 			r := &backends.Rec{Node: node, Tape: tape, Script: backends.DefaultScript(), Session: fmt.Sprintf("%s#%d@%d", kind, instance[node], node)}
+			r.ReturnDelay = returnDelay
 			if freshPayloads {
 				r.Nonce = fmt.Sprintf("#%d", attemptNo)
 				nonceMu.Lock()
@@ -200,6 +203,7 @@ func runC12(c c12Case) *vh.Outcome {
 		// runAttempt runs the given calls (with optional mid-run hook) to completion and drains.
 		curKey := ""      // set by ops that want the attempt's payload frames remembered
 		attemptStart := 0 // network log position at which the current attempt began
+		skipDrain := false
 		runAttempt := func(calls []*sim.Call, startAllFirst bool, hook func(d *sim.Driver)) bool {
 			attemptStart = len(net.LogCopy())
 			attemptNo++
@@ -263,6 +267,9 @@ func runC12(c c12Case) *vh.Outcome {
 					}
 				}
 				lastData[curKey] = fs
+			}
+			if skipDrain {
+				return true
 			}
 			return drain()
 		}
@@ -769,6 +776,76 @@ func runC12(c c12Case) *vh.Outcome {
 					return
 				}
 				usedTopics[key] = "ok"
+			case 21, 22: // signing (21) / key generation (22) by all in which every context ends while the protocol runs, with protocol
+				// instances that take 700 ms to come back after that (the API calls return at once); the next attempt on the same
+				// topic starts immediately - "after KeyGen or Sign returns, successfully or not, the party retains no state for
+				// that session: a later Sign on the same topic (or a later KeyGen) is admitted and can succeed"
+				isKG := op.Kind == 22
+				key, opName := topic, "sign"
+				if isKG {
+					key, opName = "DKG", "keygen"
+				}
+				for attempt := 0; attempt < 2; attempt++ {
+					_, used := usedTopics[key]
+					saf := false
+					if c.Silent && used && avoidL20 {
+						saf = true
+						info.StartAllFirst++
+					}
+					ctxs, cns := ctxFor(parts)
+					calls := mkCalls(opName, key, parts, ctxs)
+					var hook func(d *sim.Driver)
+					if attempt == 0 {
+						returnDelay = 700 * time.Millisecond
+						tapeStart := len(tape.Snapshot())
+						cancelled := false
+						hook = func(d *sim.Driver) {
+							if cancelled {
+								return
+							}
+							running := 0
+							for _, e := range tape.Snapshot()[tapeStart:] {
+								if e.Kind == "emit" {
+									running++
+								}
+							}
+							if running > op.At%4 {
+								cancelled = true
+								info.LateReturns++
+								for _, cn := range cns {
+									cn()
+								}
+							}
+						}
+						info.Attempts = append(info.Attempts, opName+" on "+key+" cancelled everywhere while the protocol runs; instances return 700ms later")
+					} else {
+						info.Attempts = append(info.Attempts, opName+" on "+key+" again at once")
+						info.Retries++
+					}
+					skipDrain = attempt == 0 // the next attempt starts at once: no frame is delivered, no time passes in between
+					ok := runAttempt(calls, saf, hook)
+					skipDrain = false
+					returnDelay = 0
+					if attempt == 1 {
+						for _, cn := range cns {
+							cn()
+						}
+					}
+					if !ok {
+						return
+					}
+					if attempt == 0 {
+						usedTopics[key] = "failed"
+						continue
+					}
+					if !expectAllOK(opName+"-right-after-cancelled-attempt-with-late-returning-instances", calls, key, true) {
+						return
+					}
+					usedTopics[key] = "ok"
+					if !drain() {
+						return
+					}
+				}
 			case 13, 14: // key generation (13) / signing (14) in which one node's context ends in the middle of the orchestrator's
 				// set-up of its protocol instance; the attempt fails, the next attempt on the topic must be admitted and succeed
 				isKG := op.Kind == 13
@@ -1072,6 +1149,9 @@ func runC12(c c12Case) *vh.Outcome {
 	}
 	if info.DupDuringSetup > 0 {
 		o.Classes = append(o.Classes, "duplicate-keygen-during-setup")
+	}
+	if info.LateReturns > 0 {
+		o.Classes = append(o.Classes, "retry-while-old-instances-still-returning")
 	}
 	if info.StalledHandlers > 0 {
 		o.Classes = append(o.Classes, "stalled-handler-while-other-topic-runs")
